@@ -7,12 +7,20 @@ EXTENDS StreamRecv, TraceBase
 
 Abs(j) == [got |-> ToSet(j.got), delivered |-> j.delivered, final |-> j.final,
            highest |-> j.highest, finished |-> j.finished, endSig |-> j.endSig,
-           resetAcc |-> j.resetAcc, stopPending |-> j.stopPending]
+           resetAcc |-> j.resetAcc, stopPending |-> j.stopPending,
+           stopCode |-> j.stopCode, stopInFlight |-> j.stopInFlight]
+
+\* the driver may only make calls the environment of a receiver can make
+Guard(e, pre) ==
+  CASE e.op = "stop"      -> e.code \in Codes
+    [] e.op = "stopframe" -> GetStopFrameOk(pre)
+    [] e.op = "stopdeliv" -> StopDeliveryOk(pre)
+    [] OTHER              -> TRUE
 
 Expected(e, pre) ==
   CASE e.op = "frame"    -> HandleFrameF(pre, e.o, e.n, e.fin)
     [] e.op = "reset"    -> HandleResetF(pre, e.fs)
-    [] e.op = "stop"     -> StopF(pre)
+    [] e.op = "stop"     -> StopF(pre, e.code)
     [] e.op = "stopframe"-> GetStopFrameF(pre)
     [] e.op = "stopdeliv"-> StopDeliveryF(pre, e.acked)
 
@@ -28,13 +36,28 @@ OutEq(exp, obs, pre) ==
 HeldOk(j, s) == /\ {p[1] : p \in ToSet(j.held)} = {o \in s.got : o >= s.delivered}
                 /\ \A p \in ToSet(j.held) : p[2] = Byte(p[1])
 
+(* The statement of C10 speaks about frames and resets; the STOP_SENDING
+   bookkeeping is additional behaviour covered by the specification.  The two
+   are judged by separate clauses so that the driver can tell a violation of
+   the property from a drift of the code away from the rest of the model. *)
+DataPart(s) == [got |-> s.got, delivered |-> s.delivered, final |-> s.final,
+                highest |-> s.highest, finished |-> s.finished,
+                endSig |-> s.endSig, resetAcc |-> s.resetAcc]
+StopPart(s) == [stopPending |-> s.stopPending, stopCode |-> s.stopCode,
+                stopInFlight |-> s.stopInFlight]
+
 Clauses(e) ==
-  LET pre == Abs(e.pre)  post == Abs(e.post)  x == Expected(e, pre) IN
+  LET pre == Abs(e.pre)  post == Abs(e.post) IN
+  IF ~Guard(e, pre) THEN << <<"harness-guard", FALSE>> >> ELSE
+  LET x == Expected(e, pre) IN
   << <<"pre-state-wellformed", StateOk(pre)>>,
      <<"output", OutEq(x.out, e.out, pre)>>,
-     <<"post-state", x.st = post>>,
+     <<"post-state", DataPart(x.st) = DataPart(post)>>,
      <<"post-state-wellformed", StateOk(post)>>,
-     <<"held-bytes", HeldOk(e.post, post)>> >>
+     <<"held-bytes", HeldOk(e.post, post)>>,
+     \* last: the first failing clause is the one reported, and this one is not
+     \* part of the property
+     <<"stop-bookkeeping", StopPart(x.st) = StopPart(post) /\ StopOk(post)>> >>
 
 TInit == l = 1 /\ Init
 TNext == /\ Judge(Clauses)
